@@ -12,3 +12,14 @@ package proto
 //@   ensures [step] pwCount(this) == old(pwCount(this)) + 1
 //@   ensures [err] r1 == pwErr(this, old(pwCount(this)))
 //@   modifies pwCount(this)
+
+// Random access protobuf reader (index files of the disk index, v0 data files).
+//@ func NewMMapProtoReaderWithPath
+//@   assumed
+//@   ensures r1 == nil ==> r0 != nil
+//@   ensures r1 != nil ==> r0 == nil
+//@   fresh r0
+//@   modifies nothing
+
+//@ iface ReadAtI.Open
+//@   modifies nothing
